@@ -116,25 +116,65 @@ func c05EnvInt(name string, def int) int {
 
 // ---------------------------------------------------------------- pinned scenarios
 
-// c05PinnedF1 is the minimal layout for finding F1 (shared device counted
-// twice): X is an empty writable mount with replication 2 on the best-ranked
-// server, device D is mounted on A and B, E is the only other copy; desired 2.
-func c05PinnedF1() *c05Case {
-	cs := &c05Case{MinMtime: c05MinMtime}
-	for i := 0; i < 4; i++ {
-		cs.Srvs = append(cs.Srvs, c05Srv{UUID: c05EnumUUIDs[i], Host: fmt.Sprintf("keep%d.zzzzz.example", i), Port: 25107 + i})
+func c05PinnedSrvs(n int) []c05Srv {
+	var out []c05Srv
+	for i := 0; i < n; i++ {
+		out = append(out, c05Srv{UUID: c05EnumUUIDs[i], Host: fmt.Sprintf("keep%d.zzzzz.example", i), Port: 25107 + i})
 	}
-	cs.Srvs[0].Mounts = []c05Mount{{UUID: "zzzzz-nyw5e-00000000000000x", Repl: 2, Dev: "X"}}
-	cs.Srvs[1].Mounts = []c05Mount{{UUID: "zzzzz-nyw5e-00000000000000a", Repl: 1, Dev: "D"}}
-	cs.Srvs[2].Mounts = []c05Mount{{UUID: "zzzzz-nyw5e-00000000000000b", Repl: 1, Dev: "D"}}
-	cs.Srvs[3].Mounts = []c05Mount{{UUID: "zzzzz-nyw5e-00000000000000e", Repl: 1, Dev: "E"}}
-	cs.Blocks = []c05Block{{
-		Hash:   c05EnumHash,
-		Size:   1,
-		Copies: map[string]int64{"D": c05MinMtime - 86400e9, "E": c05MinMtime - 86401e9},
-		Wants:  []c05Want{{N: 2}},
-	}}
-	return cs
+	return out
+}
+
+const (
+	c05Old1 = c05MinMtime - 86400e9
+	c05Old2 = c05MinMtime - 86401e9
+	c05Old3 = c05MinMtime - 86402e9
+	c05Old4 = c05MinMtime - 86403e9
+)
+
+// c05Pinned returns the minimal layouts of the four defects this check found
+// on the tree it was developed against (service index = rendezvous rank).
+// A, B and C were repaired in /repo and must now satisfy the oracle; D is the
+// listed known finding and must be matched by its classifier (or satisfy the
+// oracle, should it get repaired).
+func c05Pinned() map[string]*c05Case {
+	out := map[string]*c05Case{}
+
+	// A: shared device counted once per mount. X is an empty writable mount
+	// with replication 2 on the best-ranked server, device D is mounted on
+	// srv1 and srv2, E is the only other copy; desired 2. Defect: E trashed.
+	a := &c05Case{MinMtime: c05MinMtime, Srvs: c05PinnedSrvs(4)}
+	a.Srvs[0].Mounts = []c05Mount{{UUID: "zzzzz-nyw5e-00000000000000x", Repl: 2, Dev: "X"}}
+	a.Srvs[1].Mounts = []c05Mount{{UUID: "zzzzz-nyw5e-00000000000000a", Repl: 1, Dev: "D"}}
+	a.Srvs[2].Mounts = []c05Mount{{UUID: "zzzzz-nyw5e-00000000000000b", Repl: 1, Dev: "D"}}
+	a.Srvs[3].Mounts = []c05Mount{{UUID: "zzzzz-nyw5e-00000000000000e", Repl: 1, Dev: "E"}}
+	a.Blocks = []c05Block{{Hash: c05EnumHash, Size: 1, Copies: map[string]int64{"D": c05Old1, "E": c05Old2}, Wants: []c05Want{{N: 2}}}}
+	out["A-shared-device-double-count"] = a
+
+	// B: referenced, no replica, no writable mount. Defect: not reported lost.
+	b := &c05Case{MinMtime: c05MinMtime, Srvs: c05PinnedSrvs(1)}
+	b.Srvs[0].Mounts = []c05Mount{{UUID: "zzzzz-nyw5e-000000000000000", Repl: 1, Dev: "d0", RO: true}}
+	b.Blocks = []c05Block{{Hash: c05EnumHash, Size: 1, Copies: map[string]int64{}, Wants: []c05Want{{N: 2}}}}
+	out["B-lost-without-writable-mount"] = b
+
+	// C: desired class "a" offered by no mount. Defect: only copy trashed.
+	c := &c05Case{MinMtime: c05MinMtime, Srvs: c05PinnedSrvs(1)}
+	c.Srvs[0].Mounts = []c05Mount{{UUID: "zzzzz-nyw5e-000000000000000", Repl: 1, Dev: "d0"}}
+	c.Blocks = []c05Block{{Hash: c05EnumHash, Size: 1, Copies: map[string]int64{"d0": c05Old1}, Wants: []c05Want{{Classes: []string{"a"}, N: 2}}}}
+	out["C-desired-class-without-mounts"] = c
+
+	// D: srv0 has two class-b mounts and a default mount, all with copies;
+	// srv1 has a default copy; desired b=2. Defect: one class-b copy trashed,
+	// class b left with 1 (the default copy on srv1 "stands in").
+	d := &c05Case{MinMtime: c05MinMtime, Srvs: c05PinnedSrvs(2)}
+	d.Srvs[0].Mounts = []c05Mount{
+		{UUID: "zzzzz-nyw5e-000000000000000", Repl: 1, Dev: "b0", Classes: []string{"b"}},
+		{UUID: "zzzzz-nyw5e-000000000000001", Repl: 1, Dev: "d1"},
+		{UUID: "zzzzz-nyw5e-000000000000002", Repl: 1, Dev: "b2", Classes: []string{"b"}},
+	}
+	d.Srvs[1].Mounts = []c05Mount{{UUID: "zzzzz-nyw5e-000000000000003", Repl: 1, Dev: "d3"}}
+	d.Blocks = []c05Block{{Hash: c05EnumHash, Size: 1, Copies: map[string]int64{"b0": c05Old1, "d1": c05Old2, "b2": c05Old3, "d3": c05Old4}, Wants: []c05Want{{Classes: []string{"b"}, N: 2}}}}
+	out["D-other-server-copy-stands-in-for-class"] = d
+	return out
 }
 
 func TestVerifC05Pinned(t *testing.T) {
@@ -142,19 +182,27 @@ func TestVerifC05Pinned(t *testing.T) {
 	if err := c05CheckEnumRanks(); err != nil {
 		t.Fatalf("VERIF-INFRA: %v", err)
 	}
-	cs := c05PinnedF1()
-	w, err := c05Build(cs)
-	if err != nil {
-		t.Fatalf("VERIF-INFRA: %v", err)
+	pinned := c05Pinned()
+	for _, name := range []string{"A-shared-device-double-count", "B-lost-without-writable-mount", "C-desired-class-without-mounts", "D-other-server-copy-stands-in-for-class"} {
+		cs := pinned[name]
+		w, err := c05Build(cs)
+		if err != nil {
+			t.Fatalf("VERIF-INFRA: %s: %v", name, err)
+		}
+		b := &cs.Blocks[0]
+		for rep := 0; rep < 4; rep++ {
+			msg, labels, out, f := c05RunScenario(w, b)
+			if msg != "" {
+				c05SaveScenario(t, cs)
+				t.Fatalf("pinned scenario %s: %s", name, msg)
+			}
+			if rep == 0 {
+				bl, nt := w.c05Labels(b, &out, f)
+				stats.Case(stats.FP("pinned", name), nt, append(append(bl, labels...), "pinned:"+name)...)
+				t.Logf("%s: output %s labels %v", name, c05JSON(out), labels)
+			}
+		}
 	}
-	b := &cs.Blocks[0]
-	msg, labels, out, f := c05RunScenario(w, b)
-	if msg != "" {
-		c05SaveScenario(t, cs)
-		t.Fatalf("%s", msg)
-	}
-	bl, nt := w.c05Labels(b, &out, f)
-	stats.Case(stats.FP("pinned-F1"), nt, append(append(bl, labels...), "pinned:F1-minimal-layout")...)
 }
 
 // ---------------------------------------------------------------- enumeration
@@ -179,11 +227,214 @@ func c05CheckEnumRanks() error {
 	return nil
 }
 
+// c05Shapes: mounts per service, 1..maxSrv services with 1..2 mounts each and
+// at most maxMounts mounts in total.
+func c05Shapes(maxSrv, maxMounts int) [][]int {
+	var out [][]int
+	var rec func(cur []int, sum int)
+	rec = func(cur []int, sum int) {
+		if len(cur) > 0 {
+			out = append(out, append([]int(nil), cur...))
+		}
+		if len(cur) == maxSrv {
+			return
+		}
+		for k := 1; k <= 2; k++ {
+			if sum+k <= maxMounts {
+				rec(append(cur, k), sum+k)
+			}
+		}
+	}
+	rec(nil, 0)
+	return out
+}
+
+// c05DevStructs: every assignment of a device kind to the mounts:
+// 0 = blank DeviceID, 1 = own DeviceID, 2 = shared device S, 3 = shared device T.
+// A shared device has >= 2 member mounts, at most one per server; T is used
+// only together with S and after it (symmetry).
+func c05DevStructs(srvOf []int) [][]int {
+	var out [][]int
+	m := len(srvOf)
+	cur := make([]int, m)
+	var rec func(i int)
+	rec = func(i int) {
+		if i == m {
+			cnt := map[int]int{}
+			first := map[int]int{}
+			srvSeen := map[[2]int]bool{}
+			for j, k := range cur {
+				if k >= 2 {
+					if cnt[k] == 0 {
+						first[k] = j
+					}
+					cnt[k]++
+					if srvSeen[[2]int{k, srvOf[j]}] {
+						return
+					}
+					srvSeen[[2]int{k, srvOf[j]}] = true
+				}
+			}
+			if cnt[2] == 1 || cnt[3] == 1 || (cnt[3] > 0 && (cnt[2] == 0 || first[3] < first[2])) {
+				return
+			}
+			out = append(out, append([]int(nil), cur...))
+			return
+		}
+		for k := 0; k <= 3; k++ {
+			cur[i] = k
+			rec(i + 1)
+		}
+	}
+	rec(0)
+	return out
+}
+
+// TestVerifC05Enum enumerates the small scope completely:
+//   layouts: 1..4 services (index = rendezvous rank), 1..2 mounts each, at
+//   most C05_ENUM_MAXMOUNTS mounts; every service read-only flag; every mount
+//   read-only flag; every device structure (blank / own / shared S / shared T);
+//   every per-device replication in {1,2};
+//   blocks: per device no copy / old / old with the colliding mtime / new
+//   (assignments with exactly one colliding copy are skipped: same as old),
+//   desired replication 0..4 in the default class (mounts report no classes).
+// Layouts are dealt round-robin to C05_ENUM_SHARDS processes.
 func TestVerifC05Enum(t *testing.T) {
 	defer stats.Flush()
 	if rp := os.Getenv("VERIF_REPLAY"); strings.HasSuffix(rp, ".json") {
 		c05ReplayJSON(t, rp)
 		return
 	}
-	t.Skip("enumeration not built yet")
+	if err := c05CheckEnumRanks(); err != nil {
+		t.Fatalf("VERIF-INFRA: %v", err)
+	}
+	maxMounts := c05EnvInt("C05_ENUM_MAXMOUNTS", 3)
+	nsh := c05EnvInt("C05_ENUM_SHARDS", 1)
+	shard := *c05Shard
+	if shard < 0 || shard >= nsh {
+		t.Fatalf("VERIF-INFRA: shard %d of %d", shard, nsh)
+	}
+	var layouts, cases, knownHits int64
+	layoutIdx := 0
+	for _, shape := range c05Shapes(4, maxMounts) {
+		var srvOf []int
+		for si, k := range shape {
+			for j := 0; j < k; j++ {
+				srvOf = append(srvOf, si)
+			}
+		}
+		m := len(srvOf)
+		for _, ds := range c05DevStructs(srvOf) {
+			for roBits := 0; roBits < 1<<uint(len(shape)+m); roBits++ {
+				layoutIdx++
+				if layoutIdx%nsh != shard {
+					continue
+				}
+				layouts++
+				cs := &c05Case{MinMtime: c05MinMtime}
+				gi := 0
+				for si, k := range shape {
+					srv := c05Srv{UUID: c05EnumUUIDs[si], Host: fmt.Sprintf("keep%d.zzzzz.example", si), Port: 25107 + si, RO: roBits>>uint(si)&1 == 1}
+					for j := 0; j < k; j++ {
+						mt := c05Mount{UUID: fmt.Sprintf("zzzzz-nyw5e-%015x", gi), Repl: 1, RO: roBits>>uint(len(shape)+gi)&1 == 1}
+						switch ds[gi] {
+						case 1:
+							mt.Dev = fmt.Sprintf("own-%d", gi)
+						case 2:
+							mt.Dev = "S"
+						case 3:
+							mt.Dev = "T"
+						}
+						srv.Mounts = append(srv.Mounts, mt)
+						gi++
+					}
+					cs.Srvs = append(cs.Srvs, srv)
+				}
+				w, err := c05Build(cs)
+				if err != nil {
+					t.Fatalf("VERIF-INFRA: %v\n%s", err, cs.JSON())
+				}
+				c, k, fail := c05EnumBlocks(w, layoutIdx)
+				cases += c
+				knownHits += k
+				if fail != "" {
+					c05SaveScenario(t, w.cs)
+					t.Fatalf("%s", fail)
+				}
+			}
+		}
+	}
+	stats.InfoAdd("enum_layouts", layouts)
+	stats.InfoAdd("enum_cases", cases)
+	stats.Info("enum_max_mounts", maxMounts)
+	t.Logf("enumerated %d layouts, %d (layout, block) cases, %d known-finding hits (shard %d/%d, <=%d mounts)", layouts, cases, knownHits, shard, nsh, maxMounts)
+}
+
+var c05EnumMtimes = [4]int64{0, c05MinMtime - 86400e9, c05MinMtime - 7200e9, c05MinMtime + 1e9}
+
+// c05EnumBlocks runs every (replication, copy state, desired) combination on
+// one built layout.
+func c05EnumBlocks(w *c05World, layoutIdx int) (cases, known int64, fail string) {
+	nd := len(w.devKeys)
+	layoutLabels := []string{"enum"}
+	for _, dev := range w.devKeys {
+		if len(w.devMounts[dev]) > 1 {
+			layoutLabels = append(layoutLabels, "enum:shared-device-in-layout")
+			break
+		}
+	}
+	if len(layoutLabels) == 1 {
+		layoutLabels = append(layoutLabels, "enum:no-shared-device-in-layout")
+	}
+	for replBits := 0; replBits < 1<<uint(nd); replBits++ {
+		for di, dev := range w.devKeys {
+			r := 1 + replBits>>uint(di)&1
+			for _, gi := range w.devMounts[dev] {
+				w.minfo[gi].m.Repl = r
+				w.mnts[gi].Replication = r
+			}
+		}
+		total := 1
+		for i := 0; i < nd; i++ {
+			total *= 4
+		}
+		for st := 0; st < total; st++ {
+			copies := map[string]int64{}
+			nColl := 0
+			x := st
+			for _, dev := range w.devKeys {
+				k := x % 4
+				x /= 4
+				if k == 2 {
+					nColl++
+				}
+				if k != 0 {
+					copies[dev] = c05EnumMtimes[k] - int64(len(copies))*1000*int64(k&1) // old copies get distinct mtimes; colliding/new as is
+				}
+			}
+			if nColl == 1 {
+				continue
+			}
+			for desired := 0; desired <= 4; desired++ {
+				b := &c05Block{Hash: c05EnumHash, Size: 1, Copies: copies, Wants: []c05Want{{N: desired}}}
+				msg, kl, out, f := c05RunScenario(w, b)
+				if msg != "" {
+					w.cs.Blocks = []c05Block{*b}
+					return cases, known, msg
+				}
+				cases++
+				labels := layoutLabels
+				if len(kl) > 0 {
+					known++
+					labels = append(append([]string(nil), labels...), kl...)
+				}
+				nt := (len(copies) >= 2 && (len(out.Trashes) > 0 || len(out.Pulls) > 0)) || (len(f.under) > 0 && len(copies) > 0)
+				if len(out.Trashes) > 0 {
+					labels = append(append([]string(nil), labels...), "enum:trash-emitted")
+				}
+				stats.Case(uint64(layoutIdx)<<32|uint64(replBits)<<24|uint64(st)<<4|uint64(desired), nt, labels...)
+			}
+		}
+	}
+	return
 }
